@@ -1,6 +1,6 @@
 (** Pinned statements of the C19 property theorems: compiled on every check, so a theorem
     cannot be weakened silently. *)
-From V Require Import Base.Util C20.Model C19.Model C19.Spec C19.Proofs C19.Proofs3 C19.Corr C19.Properties.
+From V Require Import Base.Util C20.Model C19.Model C19.Spec C19.Proofs C19.Proofs3 C19.Ghost C19.GhostProofs C19.Corr C19.Properties.
 From Coq Require Import Sorted.
 
 Check (C19_ids_fresh : forall parse_o emit_o h,
@@ -38,6 +38,14 @@ Check (C19_emit_equals_fresh : forall parse_o emit_o h st t x,
   exec parse_o emit_o init_state h = Some st -> find_task t (tasks st) = Some x ->
   api_run parse_o emit_o init_state (fresh_acalls x ++ [AEmit 1])
   = AId 1 :: repeat AOk (length (tl (t_files x))) ++ [snd (api_step parse_o emit_o st (AEmit t))]).
+Check (C19_ghost_ownership : forall parse_o emit_o h,
+  let gh := grun 0 parse_o emit_o init_state ghost_init h in
+  gh_faults gh = []
+  /\ forall b, (b < gh_next gh)%N ->
+       is_freed b gh = true \/ exists t gt, g_find t (gh_tasks gh) = Some gt /\ In b (ids gt)).
+Check (C19_ghost_needs_exact_capacity :
+  gh_faults (grun 1 (fun _ => POk []) (fun _ _ => EOk []) init_state ghost_init
+                  [Initiate (s "/p/a.graphql") (s "query A { a }"); Free 1]) = [BadFree 0]).
 Check (C19_emit_trap_refuted : agree w_emit_trap = true /\ holds w_emit_trap = false).
 Check (C19_parse_trap_refuted :
   (agree w_parse_trap = true /\ holds w_parse_trap = false)
@@ -56,5 +64,7 @@ Print Assumptions C19_model_meets_spec.
 Print Assumptions C19_model_meets_spec_modulo_oracle_traps.
 Print Assumptions C19_isolation.
 Print Assumptions C19_emit_equals_fresh.
+Print Assumptions C19_ghost_ownership.
+Print Assumptions C19_ghost_needs_exact_capacity.
 Print Assumptions C19_emit_trap_refuted.
 Print Assumptions C19_parse_trap_refuted.
